@@ -17,7 +17,9 @@ facts it states (each is an *assumed behaviour of CPython 3.12 `typing` / builti
 * `get_origin` / `get_args` are `CD.getOrigin` / `CD.getArgs`; they never raise and return `None` / `()` on
   anything that is not a parameterised form;
 * `is`, `==`, `in` are only ever translated when one side is a *named constant* (or a list of them), and then
-  compare atoms (`Val.same`): a typing construct (`List[C]`, `Optional[C]`, …) is equal to no named constant;
+  compare atoms (`Val.same`): a typing construct (`List[C]`, `Optional[C]`, …) is equal to no named constant, and
+  neither is a proper SUBCLASS of a builtin scalar (`class Meters(float)`, `IntEnum`, `class Unit(str, Enum)`:
+  `Ann.ext`) — membership in `[int, float, str, bool, datetime, NoneType]` is exact, not `issubclass`;
 * `issubclass(x, enum.Enum)` is `CD.issubclassEnum` (TypeError when `x` is not a class);
 * `len`, `x[i]`, iteration, `next`, `all`, `any`, `hasattr(x, "__iter__")`, `try/except` as below;
 * exceptions are a small enum (`Exc`); `except Exception` catches all of them.
@@ -121,6 +123,16 @@ def len : Val → M Val
   | .tuple xs => .ok (.int xs.length)
   | _ => .error .typeError
 
+/-- `a < b`, `a <= b`, … between ints (`len(args) >= 2`) -/
+def cmpInt (f : Nat → Nat → Bool) : Val → Val → M Val
+  | .int a, .int b => .ok (.bool (f a b))
+  | _, _ => .error .typeError
+
+def lt := cmpInt Nat.blt
+def le := cmpInt Nat.ble
+def gt := cmpInt (fun a b => Nat.blt b a)
+def ge := cmpInt (fun a b => Nat.ble b a)
+
 /-- `x[i]` for a literal index `i ≥ 0` -/
 def index (x : Val) (i : Nat) : M Val :=
   match x with
@@ -167,6 +179,30 @@ def issubclassEnum : Val → M Val
   | .origin .list | .origin .set | .origin .tuple | .origin .type | .origin .sequence | .uuid => .ok (.bool false)
   | _ => .error .typeError
 
+/-- the listed builtin scalars a class object derives from (itself excluded): `bool` is a subclass of `int`; a class
+`Ann.ext (.sub b)` / `Ann.ext (.mixEnum b)` derives from `b` -/
+def scalarBases : Arg → List Builtin
+  | .ann (.builtin .bool) => [.int]
+  | .ann (.ext (.sub b) _) => if b == .bool then [.bool, .int] else [b]
+  | .ann (.ext (.mixEnum b) _) => if b == .bool then [.bool, .int] else [b]
+  | _ => []
+
+/-- is the value a class (something `issubclass` accepts as its first argument)? -/
+def isClass : Val → Bool
+  | .obj .noneType => true
+  | .obj (.ann (.builtin _)) | .obj (.ann (.cls _)) | .obj (.ann (.enum _)) | .obj (.ann (.ext _ _)) => true
+  | .origin .list | .origin .set | .origin .tuple | .origin .type | .origin .sequence | .origin .unionType => true
+  | .uuid => true
+  | _ => false
+
+/-- `issubclass(x, (c₁, …, cₙ))` for named constants `cᵢ`: TypeError when `x` is not a class -/
+def issubclassOf (x : Val) (l : List Val) : M Val :=
+  if !isClass x then .error .typeError
+  else .ok (.bool (l.any fun c => x.same c ||
+    (match x with
+     | .obj a => (scalarBases a).any (fun b => (Val.obj (.ann (.builtin b))).same c)
+     | _ => false)))
+
 /-- `hasattr(x, "__iter__")`: the container classes iterate, the class `type` does not (`type.__iter__` does not
 exist; only instances of `EnumMeta` have it); a parameterised form forwards to its origin; `None` does not -/
 def hasIter : Val → Val
@@ -174,6 +210,7 @@ def hasIter : Val → Val
   | .tuple _ => .bool true
   | .obj (.ann (.container _ _)) => .bool true
   | .obj (.ann (.enum _)) => .bool true       -- an Enum *class* is iterable
+  | .obj (.ann (.ext (.mixEnum _) _)) => .bool true
   | _ => .bool false
 
 /-- `try: m  except <cs₁>: h₁  except <cs₂>: h₂ …`: the first clause that names the exception handles it; an
@@ -241,5 +278,70 @@ def asTri : M Val → Option Tri
 def asArg : M Val → Option Arg
   | .ok (.obj x) => some x
   | _ => none
+
+/-! ### Diagnostics for a broken obligation
+
+When a regenerated obligation `C17_<accessor>_translated_eq_model` no longer checks, the generated file also evaluates
+translated accessor and model on a finite list of probe annotations (every leaf, every wrapper around every leaf,
+every pair of wrappers, some unions) and prints the first ones on which they differ, written the way the annotation is
+written in Python — a concrete candidate for the search through the correspondence. Not part of any proof. -/
+
+def pyText : Ann → String
+  | .builtin .int => "int" | .builtin .float => "float" | .builtin .str => "str" | .builtin .bool => "bool"
+  | .builtin .datetime => "datetime"
+  | .cls i => s!"C{i}" | .enum i => s!"E{i}"
+  | .ext (.sub b) i => s!"S{pyText (.builtin b)}{i}"       -- `class Sfloat0(float)`
+  | .ext (.mixEnum b) i => s!"M{pyText (.builtin b)}{i}"   -- `class Mint0(int, Enum)` / IntEnum / StrEnum
+  | .ext .plain i => s!"P{i}"                              -- `class P0`
+  | .optional .typing a => s!"Optional[{pyText a}]"
+  | .optional .unionNone a => s!"Union[{pyText a}, None]"
+  | .optional .noneFirst a => s!"Union[None, {pyText a}]"
+  | .optional .pipe a => s!"{pyText a} | None"
+  | .container .list a => s!"List[{pyText a}]" | .container .set a => s!"Set[{pyText a}]"
+  | .container .tuple a => s!"Tuple[{pyText a}, ...]" | .container .sequence a => s!"Sequence[{pyText a}]"
+  | .container .blist a => s!"list[{pyText a}]" | .container .bset a => s!"set[{pyText a}]"
+  | .container .btuple a => s!"tuple[{pyText a}, ...]"
+  | .typeOf a => s!"Type[{pyText a}]"
+  | .fwd a => s!"'{pyText a}'"
+  | .union a b false => s!"Union[{pyText a}, {pyText b}]"
+  | .union a b true => s!"Union[{pyText a}, {pyText b}, None]"
+
+def probeLeaves : List Ann :=
+  [.builtin .int, .builtin .float, .builtin .str, .builtin .bool, .builtin .datetime, .cls 0, .enum 0,
+   .ext (.sub .float) 0, .ext (.sub .int) 0, .ext (.mixEnum .int) 0, .ext (.mixEnum .str) 0, .ext .plain 0]
+
+def probeWrap (x : Ann) : List Ann :=
+  [.optional .typing x, .optional .unionNone x, .optional .noneFirst x, .optional .pipe x,
+   .container .list x, .container .set x, .container .tuple x, .container .sequence x, .container .blist x,
+   .container .bset x, .container .btuple x, .typeOf x]
+
+def probes : List Ann :=
+  let one := probeLeaves.flatMap probeWrap
+  let unions : List Ann := [.union (.cls 0) (.builtin .int) false, .union (.cls 0) (.builtin .int) true,
+    .union (.enum 0) (.cls 0) false, .union (.builtin .int) (.builtin .str) true]
+  probeLeaves ++ one ++ unions ++ unions.flatMap probeWrap ++ one.flatMap probeWrap
+
+def showM : M Val → String
+  | .ok (.bool b) => if b then "True" else "False"
+  | .ok (.int n) => toString n
+  | .ok .none => "None"
+  | .ok (.obj .noneType) => "NoneType"
+  | .ok (.obj (.ann a)) => pyText a
+  | .ok (.origin o) => reprStr o
+  | .ok (.tuple xs) => s!"<tuple of {xs.length}>"
+  | .ok .optionalForm => "typing.Optional" | .ok .typingType => "typing.Type" | .ok .uuid => "UUID"
+  | .error e => "raises " ++ reprStr e
+
+def sameM : M Val → M Val → Bool
+  | .ok a, .ok b => a == b
+  | .error a, .error b => a == b
+  | _, _ => false
+
+/-- the first probe annotations on which `f` (translated) and `g` (model) differ -/
+def diffReport (name : String) (f g : Ann → M Val) : String :=
+  let bad := probes.filter (fun t => !sameM (f t) (g t))
+  if bad.isEmpty then s!"DIFF {name}: none on {probes.length} probe annotations"
+  else s!"DIFF {name}: {bad.length} of {probes.length} probe annotations, first: " ++
+    "; ".intercalate ((bad.take 3).map fun t => s!"{pyText t} -> translated code {showM (f t)}, model {showM (g t)}")
 
 end KrroodVerif.CD.Py
